@@ -206,6 +206,39 @@ def spec_step(x):
     return ("Hardened" if hard else "Normal", int(x[:-1] if hard else x))
 
 
+def derivation_hooks(m):
+    """rust-bitcoin BIP-32 path operations on the structural model of c10.key_machine; child derivation itself is a
+    term constructor ("derived", xkey, path)"""
+    from . import c10
+    from ..interp import Adt, PyVec, ok, err
+    from ..builtins import deref
+    CHILD = c10.CHILD
+    h = m.hooks
+
+    def child(kind):
+        def f(m_, a, c):
+            i = deref(a[0])
+            return ok(Adt(CHILD, kind, {"index": i})) if 0 <= i < 2 ** 31 else err(Term("InvalidChildNumber", i))
+        return f
+    h["bitcoin::bip32::ChildNumber::from_normal_idx"] = child("Normal")
+    h["bitcoin::bip32::ChildNumber::from_hardened_idx"] = child("Hardened")
+    h["bitcoin::bip32::ChildNumber::is_hardened"] = lambda m_, a, c: deref(a[0]).variant == "Hardened"
+    h["bitcoin::bip32::ChildNumber::is_normal"] = lambda m_, a, c: deref(a[0]).variant == "Normal"
+    h["bitcoin::bip32::DerivationPath::into_child"] = lambda m_, a, c: PyVec(list(deref(a[0]).items) + [deref(a[1])])
+    h["bitcoin::bip32::DerivationPath::child"] = h["bitcoin::bip32::DerivationPath::into_child"]
+    h["bitcoin::bip32::DerivationPath::extend"] = lambda m_, a, c: PyVec(list(deref(a[0]).items) + list(deref(a[1]).items))
+    h["<bitcoin::bip32::DerivationPath as std::convert::From<std::vec::Vec<bitcoin::bip32::ChildNumber>>>::from"] = \
+        lambda m_, a, c: PyVec(list(deref(a[0]).items))
+    h["<bitcoin::bip32::DerivationPath as std::convert::AsRef<[bitcoin::bip32::ChildNumber]>>::as_ref"] = lambda m_, a, c: deref(a[0])
+    h["bitcoin::bip32::Xpub::derive_pub"] = lambda m_, a, c: ok(Adt("bitcoin::bip32::Xpub", "Xpub", {
+        "public_key": ("derived", deref(a[0]), tuple((x.variant, x.fields["index"]) for x in deref(a[2]).items))}))
+    h["bitcoin::PublicKey::new"] = lambda m_, a, c: ("compressed", deref(a[0]))
+    h["bitcoin::bip32::Xpub::fingerprint"] = lambda m_, a, c: ("fingerprint-of", deref(a[0]))
+    h["miniscript::ToPublicKey::to_public_key"] = lambda m_, a, c: ("even-y", deref(a[0]))
+
+    return m
+
+
 def check_key_derivation(chk, F):
     from . import c10
     from ..interp import Machine, Adt, PyVec, Panic, ok, err, some, NONE
@@ -234,26 +267,7 @@ def check_key_derivation(chk, F):
     m = c10.key_machine(F)
     h = m.hooks
 
-    def child(kind):
-        def f(m_, a, c):
-            i = deref(a[0])
-            return ok(Adt(CHILD, kind, {"index": i})) if 0 <= i < 2 ** 31 else err(Term("InvalidChildNumber", i))
-        return f
-    h["bitcoin::bip32::ChildNumber::from_normal_idx"] = child("Normal")
-    h["bitcoin::bip32::ChildNumber::from_hardened_idx"] = child("Hardened")
-    h["bitcoin::bip32::ChildNumber::is_hardened"] = lambda m_, a, c: deref(a[0]).variant == "Hardened"
-    h["bitcoin::bip32::ChildNumber::is_normal"] = lambda m_, a, c: deref(a[0]).variant == "Normal"
-    h["bitcoin::bip32::DerivationPath::into_child"] = lambda m_, a, c: PyVec(list(deref(a[0]).items) + [deref(a[1])])
-    h["bitcoin::bip32::DerivationPath::child"] = h["bitcoin::bip32::DerivationPath::into_child"]
-    h["bitcoin::bip32::DerivationPath::extend"] = lambda m_, a, c: PyVec(list(deref(a[0]).items) + list(deref(a[1]).items))
-    h["<bitcoin::bip32::DerivationPath as std::convert::From<std::vec::Vec<bitcoin::bip32::ChildNumber>>>::from"] = \
-        lambda m_, a, c: PyVec(list(deref(a[0]).items))
-    h["<bitcoin::bip32::DerivationPath as std::convert::AsRef<[bitcoin::bip32::ChildNumber]>>::as_ref"] = lambda m_, a, c: deref(a[0])
-    h["bitcoin::bip32::Xpub::derive_pub"] = lambda m_, a, c: ok(Adt("bitcoin::bip32::Xpub", "Xpub", {
-        "public_key": ("derived", deref(a[0]), tuple((x.variant, x.fields["index"]) for x in deref(a[2]).items))}))
-    h["bitcoin::PublicKey::new"] = lambda m_, a, c: ("compressed", deref(a[0]))
-    h["bitcoin::bip32::Xpub::fingerprint"] = lambda m_, a, c: ("fingerprint-of", deref(a[0]))
-    h["miniscript::ToPublicKey::to_public_key"] = lambda m_, a, c: ("even-y", deref(a[0]))
+    derivation_hooks(m)
 
     def steps(v):
         return [(x.variant, x.fields["index"]) for x in deref(v).items]
@@ -344,6 +358,136 @@ def check_key_derivation(chk, F):
     chk.floor(rid, "key expressions", n_ok, 85)
 
 
+# ---- R16.6 descriptor-level multipath split and wildcard replacement -------------------------------------------------
+
+DESC_TEMPLATES = ["wpkh(K0)", "pkh(K0)", "sh(wpkh(K0))", "wsh(multi(2,K0,K1))", "sh(multi(1,K0,K1))",
+                  "sh(wsh(sortedmulti(1,K0,K1)))", "wsh(and_v(v:pk(K0),or_d(pk(K1),older(5))))", "tr(K0)",
+                  "tr(K0,{pk(K1),and_v(v:pk(K2),older(9))})", "tr(K0,multi_a(2,K1,K2))", "wsh(thresh(2,pk(K0),s:pk(K1),s:pk(K2)))"]
+
+
+def check_descriptor_split(chk, F):
+    import itertools
+    import re
+    from . import c10
+    from .. import builtins as B, textmodel as tm
+    from ..interp import Panic, dcopy
+    rid = "R16.6"
+    chk.rule(rid, "whole descriptors over extended keys (every output type, 1-3 keys, keys with / without multipath steps "
+                  "of 2 or 3 alternatives, with / without (hardened) wildcards): into_single_descriptors returns, in order, "
+                  "exactly the descriptors whose text has every <a;b;..> step replaced by its j-th alternative (the "
+                  "descriptor itself when no key is multipath); at_derivation_index(i) is the text with every /* replaced "
+                  "by /i, and is refused for multipath keys, hardened wildcards / steps and i >= 2^31; keys with different "
+                  "numbers of alternatives are refused by the parser")
+    DPK = c10.DPK
+    fs = [it["path"] for i in F.impls if i["trait"] == "std::str::FromStr" and i["self_adt"] == c10.DESC
+          for it in i["items"] if it["name"] == "from_str"]
+    isd = [q for q in F.fns if q.endswith("Descriptor::<descriptor::key::DescriptorPublicKey>::into_single_descriptors")]
+    adi = [q for q in F.fns if q.endswith("Descriptor::<descriptor::key::DescriptorPublicKey>::at_derivation_index")]
+    if len(fs) != 1 or len(isd) != 1 or len(adi) != 1:
+        chk.fail(rid, "anchor", "Descriptor::from_str / into_single_descriptors / at_derivation_index not found", kind="unanalysable")
+        return
+    chk.saw(fs[0], isd[0], adi[0])
+    m, _params = c10.desc_machine(F)
+    km = c10.key_machine(F)
+    for k, v in km.hooks.items():
+        m.hooks.setdefault(k, v)
+    derivation_hooks(m)
+    m.key_display = True
+    m.max_depth = 140
+    XP = [c10.XPUB, c10.XPUB.replace("A1", "B7"), c10.XPUB.replace("A1", "C9")]
+
+    def show(s_):
+        for i, x in enumerate(XP):
+            s_ = s_.replace(x, "X%d" % i)
+        return s_
+
+    def text_of(v):
+        out, _ = tm.display(m, v)
+        return "".join(map(str, out)).split("#")[0]
+
+    def parse(s_):
+        return m.call_callee({"def": fs[0], "resolved": fs[0], "name": "from_str", "targs": [DPK]}, [s_])
+    # key forms: (prefix path, multipath alternatives per count, suffix path)
+    def key_text(slot, n_alt, multi, wc):
+        base = XP[slot] + ("/%d" % (slot + 1) if slot != 1 else "")
+        if multi:
+            base += "/<" + ";".join(str(10 * slot + j) for j in range(n_alt)) + ">"
+        if slot == 2:
+            base += "/7"
+        return base + wc
+    orig = B.fmt_value
+    B.fmt_value = c10._key_fmt_value(orig)
+    n = 0
+    try:
+        for tpl in DESC_TEMPLATES:
+            slots = len(set(re.findall(r"K\d", tpl)))
+            plans = [(1, ()), (2, tuple(range(slots))), (3, tuple(range(slots))), (2, (0,)), (3, (slots - 1,))]
+            for (n_alt, multi_slots), wc in itertools.product(plans, ("", "/*", "/*h")):
+                if n_alt > 1 and slots > 1 and multi_slots == (slots - 1,) and multi_slots == (0,):
+                    continue
+                s_ = tpl
+                for i in range(slots):
+                    s_ = s_.replace("K%d" % i, key_text(i, n_alt, i in multi_slots, wc))
+                key = "%s|alts=%d@%s|wildcard=%s" % (tpl, n_alt, ",".join(map(str, multi_slots)) or "-", wc or "-")
+                n += 1
+                try:
+                    r = parse(s_)
+                    if r.variant != "Ok":
+                        chk.fail(rid, key, "descriptor %s does not parse: %s" % (show(s_), repr(r)[:200]), where="src/descriptor/mod.rs")
+                        continue
+                    d = r.fields["0"]
+                    bad = []
+                    r2 = m.call_path(isd[0], [dcopy(d)])
+                    want = [re.sub(r"<([^>]*)>", lambda mo: mo.group(1).split(";")[j], s_) for j in range(n_alt)] if multi_slots else [s_]
+                    got = [text_of(x) for x in B.deref(r2.fields["0"]).items] if r2.variant == "Ok" else repr(r2)[:200]
+                    if got != want:
+                        bad.append("into_single_descriptors gives %s, expected %s" % (
+                            [show(x) for x in got] if isinstance(got, list) else got, [show(x) for x in want]))
+                    for i in (0, 9, 2 ** 31 - 1, 2 ** 31):
+                        r3 = m.call_path(adi[0], [d, i])
+                        hard = wc == "/*h" or (wc == "/*" and i >= 2 ** 31)
+                        # the keys are translated one by one: any key's own refusal may be the one reported
+                        want3 = set()
+                        if multi_slots:
+                            want3.add("Err:Multipath")
+                        if hard and (not multi_slots or len(multi_slots) < slots):
+                            want3.add("Err:HardenedStep")
+                        if not want3:
+                            want3.add(s_.replace("/*", "/%d" % i))
+                        got3 = text_of(r3.fields["0"]) if r3.variant == "Ok" else "Err:" + getattr(B.deref(r3.fields["0"]), "variant", "?")
+                        if got3 not in want3:
+                            bad.append("at_derivation_index(%d) gives %s, expected %s" % (i, show(got3), " or ".join(sorted(map(show, want3)))))
+                    chk.obligation(rid, not bad, key, "; ".join(bad[:2])[:900], where="src/descriptor/mod.rs")
+                except Unsupported as e:
+                    chk.fail(rid, "unanalysable:" + key, "unanalysable: %s" % e, where=e.where, kind="unanalysable")
+                    return
+                except Panic as e:
+                    chk.fail(rid, key, "panic: %s" % e, where="src/descriptor/mod.rs")
+        # different numbers of alternatives: no split exists; refused by the parser or by into_single_descriptors
+        for s_ in ("wsh(multi(2,%s/<0;1>/*,%s/<0;1;2>/*))" % (XP[0], XP[1]), "wsh(multi(2,%s/<0;1;2>/*,%s/<0;1>/*))" % (XP[0], XP[1]),
+                   "tr(%s/<0;1;2>,pk(%s/<3;4>))" % (XP[0], XP[1]), "tr(%s/<0;1>,pk(%s/<3;4;5>))" % (XP[0], XP[1]),
+                   "tr(%s,{pk(%s/<3;4>),pk(%s/<5;6;7>)})" % (XP[0], XP[1], XP[2]),
+                   "tr(%s,{pk(%s/<3;4;8>),pk(%s/<5;6>)})" % (XP[0], XP[1], XP[2]),
+                   "sh(wsh(and_v(v:pk(%s/<0;1>),pk(%s/9/<1;2;3>))))" % (XP[0], XP[1])):
+            n += 1
+            try:
+                r = parse(s_)
+                refused = r.variant == "Err"
+                if not refused:
+                    r2 = m.call_path(isd[0], [dcopy(r.fields["0"])])
+                    refused = r2.variant == "Err"
+                    detail = "" if refused else "split into %s" % [show(text_of(x)) for x in B.deref(r2.fields["0"]).items]
+                chk.obligation(rid, refused, "mismatch|" + show(s_), "a descriptor whose multipath keys have different numbers of "
+                               "alternatives is accepted and " + (detail if not refused else ""), where="src/descriptor/mod.rs")
+            except Unsupported as e:
+                chk.fail(rid, "unanalysable:" + show(s_), "unanalysable: %s" % e, where=e.where, kind="unanalysable")
+            except Panic as e:
+                chk.fail(rid, "mismatch|" + show(s_), "panic: %s" % e, where="src/descriptor/mod.rs")
+    finally:
+        B.fmt_value = orig
+    chk.floor(rid, "descriptor x key-form cases", n, 150)
+
+
 def run(chk):
     F = chk.facts()
     chk.explanation = (
@@ -359,3 +503,4 @@ def run(chk):
     check_dispatch(chk, F)
     check_derive_key(chk, F)
     chk.guard("R16.5", "key-derivation", check_key_derivation, chk, F)
+    chk.guard("R16.6", "descriptor-split", check_descriptor_split, chk, F)
